@@ -241,39 +241,41 @@ func OpenTSDB(dir string, h Head) (*tsdb.DB, error) {
 		return nil, err
 	}
 	db.DisableCompactions()
-	// One appender, samples in global time order: the first append of a fresh head fixes the
-	// lower bound for all later ones (first t - ChunkRange/2).
+	if err := appendAll(db.Appender(context.Background()), h.Series); err != nil {
+		_ = db.Close()
+		return nil, err
+	}
+	return db, nil
+}
+
+// appendAll appends all samples through one appender in global time order and commits: the first
+// append of a fresh head fixes the lower bound for all later ones (first t - ChunkRange/2).
+func appendAll(app storage.Appender, series []Series) error {
 	type at struct {
 		si int
 		s  Sample
 	}
 	var all []at
-	for si, s := range h.Series {
+	for si, s := range series {
 		for _, smp := range s.Samples {
 			all = append(all, at{si, smp})
 		}
 	}
 	sort.SliceStable(all, func(i, j int) bool { return all[i].s.T < all[j].s.T })
-	app := db.Appender(context.Background())
-	refs := make([]storage.SeriesRef, len(h.Series))
-	lsets := make([]labels.Labels, len(h.Series))
-	for si, s := range h.Series {
+	refs := make([]storage.SeriesRef, len(series))
+	lsets := make([]labels.Labels, len(series))
+	for si, s := range series {
 		lsets[si] = Lset(s.Labels)
 	}
 	for _, a := range all {
 		r, err := app.Append(refs[a.si], lsets[a.si], a.s.T, a.s.V)
 		if err != nil {
 			_ = app.Rollback()
-			_ = db.Close()
-			return nil, fmt.Errorf("append %s@%d: %w", lsets[a.si], a.s.T, err)
+			return fmt.Errorf("append %s@%d: %w", lsets[a.si], a.s.T, err)
 		}
 		refs[a.si] = r
 	}
-	if err := app.Commit(); err != nil {
-		_ = db.Close()
-		return nil, err
-	}
-	return db, nil
+	return app.Commit()
 }
 
 // NewTSDBStore wraps db in a real store.TSDBStore with the given external labels.
